@@ -109,4 +109,14 @@ theorem pySetSlice_empty_range (l : List Nat) (i : Int) (v : Nat) :
     pySetSlice l i i [v] = Capella.CoupledList.pyInsert l i v := by
   simp [pySetSlice, Capella.CoupledList.pyInsert, Capella.CoupledList.normIndex, pySliceBound]
 
+/-- `DirectProxyAccessor.insert` / `RoleTagAccessor.insert` of an object into a list owned by the object itself or by
+one of its descendants (/repo 0f18930, `_check_movable`): refused with ValueError; trees, indexes, detached elements and
+pending creations are exactly as before. -/
+theorem moveElem_below_itself (parent idx v : Nat) (s : State)
+    (h : (subtreeRows s v).any (·.nid == parent) = true) :
+    (moveElem parent idx v s).val = .error .valueError ∧ Same s (moveElem parent idx v s).st := by
+  unfold moveElem
+  simp only [bind, getS, h, hit, modS, raise]
+  exact ⟨rfl, ⟨rfl, rfl, rfl, rfl⟩⟩
+
 end Capella.Accessor
